@@ -185,17 +185,17 @@ def strip_lean_comments(text: str) -> str:
     return "".join(out)
 
 
-def audit_axioms(prop: str) -> dict:
-    """#print axioms for every theorem registered for `prop`.
-    Returns {theorem: [axioms]} and raises CheckAbort if a theorem is missing."""
-    reg = load_registry()
-    entry = reg[prop]
+def audit_axioms(prop: str, entry: dict | None = None, tag: str = "") -> dict:
+    """#print axioms for every theorem registered for `prop` (or of the given registry entry).
+    Returns {theorem: [axioms]} and the names that are missing."""
+    if entry is None:
+        entry = load_registry()[prop]
     mods = entry["modules"]
     names = entry["theorems"]
     src = "".join(f"import {m}\n" for m in mods) + "".join(f"#print axioms {n}\n" for n in names)
     audit_dir = os.path.join(LEAN_DIR, ".lake", "audit")
     os.makedirs(audit_dir, exist_ok=True)
-    path = os.path.join(audit_dir, f"Audit_{prop}.lean")
+    path = os.path.join(audit_dir, f"Audit_{prop}{tag}.lean")
     with open(path, "w") as f:
         f.write(src)
     with lake_lock():
@@ -463,6 +463,56 @@ class Ctx:
             self.proof_ok = False
             self.build_log = (p.stdout + p.stderr)[-3000:]
         return p.returncode == 0
+
+    # ---- source tie: the part of the model that is regenerated from the sources by harness/py2lean.py ----
+    def check_src_tie(self):
+        """Translate the modelled core-library sources of this property to Lean (Generated/Src*.lean) and re-check the
+        theorems stating that the translated source *is* the hand-written model.  A tie that cannot be established
+        (unsupported construct, equivalence proof no longer checks) is never an alarm by itself: the behavioural
+        correspondence remains the tie, and is run at escalated depth."""
+        entry = load_registry()[self.prop].get("src_tie")
+        if not entry:
+            return None
+        from . import py2lean
+        t0 = time.time()
+        info = {"modules": entry["modules"], "theorems": entry["theorems"], "established": False}
+        try:
+            with lake_lock():
+                report = py2lean.translate_all(REPO)
+            untranslated = {}
+            for tag, fns in entry["functions"].items():
+                rep = report.get(tag, {})
+                if rep.get("error"):
+                    untranslated[tag] = rep["error"]
+                for fn in fns:
+                    st = rep.get("functions", {}).get(fn)
+                    if st != "ok":
+                        untranslated[f"{tag}.{fn}"] = st or "missing"
+            info["translated"] = {tag: sorted(fns) for tag, fns in entry["functions"].items()}
+            info["untranslated"] = untranslated
+            ok, out = lake_build(tuple(entry["modules"]))
+            if not ok:
+                info["build_log_tail"] = out[-1500:]
+            else:
+                aud = audit_axioms(self.prop, entry, tag="_src")
+                bad = {n: a for n, a in aud["axioms"].items() if not set(a) <= ALLOWED_AXIOMS}
+                forb = scan_forbidden(entry["modules"])
+                info["axioms_used"] = sorted({a for v in aud["axioms"].values() for a in v})
+                info["discharged"] = sum(1 for n in entry["theorems"] if n in aud["axioms"] and n not in bad)
+                if aud["missing"] or bad or forb:
+                    info["problems"] = {"missing": aud["missing"], "bad_axioms": bad, "forbidden": forb}
+                elif not untranslated:
+                    info["established"] = True
+        except Exception as ex:  # noqa: BLE001 - a translator problem must not take the check down
+            info["error"] = f"{type(ex).__name__}: {ex}"
+        info["wall_s"] = round(time.time() - t0, 1)
+        self.extra["source_tie"] = info
+        self.src_tie_ok = info["established"]
+        if not info["established"]:
+            self.escalated = True
+            self.notes.append("source tie (translated source = model) not established on this tree: the behavioural "
+                              "correspondence is run at escalated depth; this alone is never an alarm")
+        return info["established"]
 
     # ---- evidence ----
     def write_evidence(self, rule: str, assumptions: list[str] | None = None, level: str = "proof"):
